@@ -1,5 +1,251 @@
-/- C18: statements in progress; this placeholder keeps the module buildable. -/
+/-
+C18 — YAML snapshots keep the document verbatim (go-snaps glue).
+
+`matchYAML` (snaps/matchYAML.go:56-141): validate (goccy/go-yaml, a parameter) → matchers →
+`takeYAMLSnapshot(y) = escapeEndChars(string(y))` → the shared lookup / create / compare /
+update tail, comparing after `unescapeEndChars`.  Nothing re-serialises the document: without
+matchers the stored body is `escape y` and what is compared on replay is `unescape (escape y)`,
+i.e. `y` itself unless it has a line equal to the escape token (D10).
+
+Byte legend: 10 = "\n"; "a: 1" = [97, 58, 32, 49]; "---" = [45, 45, 45].
+-/
 import GoSnaps.Model
+import GoSnaps.Driver
+import GoSnaps.Props.C01
+import GoSnaps.Props.C02
+import GoSnaps.Props.C03
+import GoSnaps.Props.C17
+import GoSnaps.Props.C19
 namespace GoSnaps.C18
-theorem handleError_counts (w : World) (msg : Text) : (handleError w msg).1.events.erred = w.events.erred + 1 := rfl
+
+open GoSnaps
+
+/-! ## 0. `matchEntry` on a document that passed the pipeline -/
+
+/-- `MatchYAML` / `MatchJSON` / `MatchSnapshot` with snapshot text `s`: the shared tail on the
+entered world, with the header `[tName - n]`, `n` the bumped ordinal -/
+theorem matchEntry_ok_eq (w : World) (c : Cfg) (caller tName : Text) (texec : Nat) (cmp : Cmp)
+    (s rel : Text) (hrel : (snapshotPath c caller tName false).2 = some rel) :
+    matchEntry w c caller tName texec cmp (.ok s) =
+      entryTail (C17.entered w c caller tName texec) c (snapshotPath c caller tName false).1 rel
+        (C03.testID tName (alGet w.running ((snapshotPath c caller tName false).1, tName) + 1)) s cmp := by
+  unfold matchEntry C17.entered
+  generalize snapshotPath c caller tName false = sp at hrel ⊢
+  obtain ⟨snapPath, rel?⟩ := sp
+  simp only at hrel
+  subst hrel
+  simp only [C03.testID_eq]
+  simp [regBump]
+
+/-- what `Driver.docOp "yaml"` hands to `matchEntry` for a document `d` that passed validation
+and matchers -/
+def yamlPre (doc : Except Text Text) : Except Text Text :=
+  match doc with
+  | .ok d => .ok (escape d)
+  | .error e => .error e
+
+theorem docOp_yaml (s : DState) (line c t : String) (cn tn : Nat) (cfg : Cfg) (nm : Text)
+    (doc : Except Text Text)
+    (hc : c.toNat? = some cn) (hcfg : lookupCfg s cn = some cfg)
+    (ht : t.toNat? = some tn) (hn : lookupName s tn = some nm) (hd : s.doc = some doc) :
+    (docOp s line "yaml" c t).1.w = (matchEntry s.w cfg s.caller nm tn .escaped (yamlPre doc)).1 := by
+  cases doc <;> simp [docOp, hc, hcfg, ht, hn, hd, yamlPre]
+
+/-! ## 1. the stored body is the escaped document -/
+
+/-- **yaml_stored**: no entry with this header in the file (or no file), creation allowed:
+the call appends exactly the frame `"\n" ++ id ++ "\n" ++ escape y ++ "\n---\n"` to the file
+(a missing file starts empty), logs "added", counts one `added` -/
+theorem yaml_stored (w : World) (c : Cfg) (p rel id y : Text)
+    (hmiss : (fsRead w.fs p).bind (getPrev id) = none)
+    (hc : Generated.shouldCreate w.env c.update = true) :
+    let r := entryTail w c p rel id (escape y) .escaped
+    fsRead r.1.fs p = some ((fsRead w.fs p).getD [] ++ frame ⟨id, escape y⟩) ∧
+    r.2.events = [.log Generated.go_addedMsg] ∧ r.2.writes = [p] ∧
+    r.1.events = { w.events with added := w.events.added + 1 } ∧ r.2.unsupported = none := by
+  unfold entryTail
+  simp only [hmiss, hc, Bool.not_true, Bool.false_eq_true, ↓reduceIte, frameFmt_eq]
+  refine ⟨?_, trivial, trivial, trivial, trivial⟩
+  rw [C19.fsRead_fsWrite_same]
+  cases fsRead w.fs p <;> rfl
+
+/-- … and the lookup of that header in the new file returns `escape y` — for a file that was
+a well-formed entry list `es` in which the header does not occur (or no file: `es = []`) -/
+theorem yaml_stored_lookup (w : World) (c : Cfg) (p rel id y : Text) (es : List Entry)
+    (hfile : fsRead w.fs p = some (render es) ∨ (fsRead w.fs p = none ∧ es = []))
+    (hwf : C01.WF (es ++ [⟨id, escape y⟩])) (hne : id ≠ []) (hfresh : id ∉ fileLines es)
+    (hc : Generated.shouldCreate w.env c.update = true) :
+    let r := entryTail w c p rel id (escape y) .escaped
+    fsRead r.1.fs p = some (render (es ++ [⟨id, escape y⟩])) ∧
+    (fsRead r.1.fs p).bind (getPrev id) = some (escape y, (fileLines es).length + 2) := by
+  have hwf' : C01.WF es := WF_append_left hwf
+  have hmiss : (fsRead w.fs p).bind (getPrev id) = none := by
+    rcases hfile with h | ⟨h, _⟩
+    · rw [h]; exact C01.getPrev_absent id es hwf' hfresh
+    · rw [h]; rfl
+  have hold : (fsRead w.fs p).getD [] = render es := by
+    rcases hfile with h | ⟨h, rfl⟩
+    · rw [h]; rfl
+    · rw [h]; rfl
+  intro r
+  have h1 : fsRead r.1.fs p = some (render (es ++ [⟨id, escape y⟩])) := by
+    rw [(yaml_stored w c p rel id y hmiss hc).1, hold]
+    simp [render]
+  exact ⟨h1, by rw [h1]; exact C01.record_then_lookup es id y hwf hne hfresh⟩
+
+/-- what replay compares is the document itself: `unescape (escape y) = y` for every document
+without a line equal to the escape token; in general the token line reads back as "---" (D10) -/
+theorem yaml_verbatim (y : Text) (h : C02.NoTokLine y) : unescape (escape y) = y :=
+  C02.unescape_escape_id y h
+
+theorem yaml_verbatim_gen (y : Text) : unescape (escape y) = C02.canon y :=
+  C02.unescape_escape_fix y
+
+/-- a document containing the YAML document separator "---": stored escaped, read back verbatim -/
+example : escape [97, 58, 32, 49, 10, 45, 45, 45, 10, 98, 58, 32, 50] =
+      [97, 58, 32, 49, 10, 47, 45, 47, 45, 47, 45, 47, 10, 98, 58, 32, 50] ∧
+    unescape (escape [97, 58, 32, 49, 10, 45, 45, 45, 10, 98, 58, 32, 50]) =
+      [97, 58, 32, 49, 10, 45, 45, 45, 10, 98, 58, 32, 50] := by decide
+
+/-! ## 2. replay -/
+
+/-- **yaml_replay**: the stored entry is `escape y` ⇒ the same document passes: no event, no
+write, the file system is untouched, one `passed` — in every mode.  Both sides of the
+comparison are `unescape (escape y)`. -/
+theorem yaml_replay (w : World) (c : Cfg) (p rel id y : Text) (line : Nat)
+    (h : (fsRead w.fs p).bind (getPrev id) = some (escape y, line)) :
+    let r := entryTail w c p rel id (escape y) .escaped
+    r.2.events = [] ∧ r.2.writes = [] ∧ r.2.removed = [] ∧ r.1.fs = w.fs ∧
+    r.1.events = { w.events with passed := w.events.passed + 1 } ∧ r.2.unsupported = none := by
+  unfold entryTail
+  simp [h, prettyDiff]
+
+/-- a different document against the stored one (neither with a token line) is reported: the
+test fails unless updating is allowed -/
+theorem yaml_mismatch (w : World) (c : Cfg) (p rel id y y' : Text) (line : Nat)
+    (h : (fsRead w.fs p).bind (getPrev id) = some (escape y, line))
+    (hy : C02.NoTokLine y) (hy' : C02.NoTokLine y') (hne : y' ≠ y)
+    (hu : Generated.shouldUpdate w.env c.update = false) :
+    let r := entryTail w c p rel id (escape y') .escaped
+    (∃ d, d ≠ [] ∧ r.2.events = [.error d]) ∧ r.2.writes = [] ∧ r.1.fs = w.fs := by
+  have hd := C02.mismatch_reported_text y y' rel line hy hy' hne
+  unfold entryTail
+  simp only [h, hd, ↓reduceIte, hu, Bool.not_false]
+  exact ⟨⟨_, hd, rfl⟩, rfl, rfl⟩
+
+/-- **record, then replay**: the world left by the creating call replays the same document
+silently (same header: the next run of the test, after the registries were reset) -/
+theorem yaml_record_then_replay (w : World) (c : Cfg) (p rel id y : Text) (es : List Entry)
+    (hfile : fsRead w.fs p = some (render es) ∨ (fsRead w.fs p = none ∧ es = []))
+    (hwf : C01.WF (es ++ [⟨id, escape y⟩])) (hne : id ≠ []) (hfresh : id ∉ fileLines es)
+    (hc : Generated.shouldCreate w.env c.update = true) (c' : Cfg) (rel' : Text) :
+    let w₁ := (entryTail w c p rel id (escape y) .escaped).1
+    let r := entryTail w₁ c' p rel' id (escape y) .escaped
+    r.2.events = [] ∧ r.2.writes = [] ∧ r.1.fs = w₁.fs := by
+  intro w₁ r
+  have h := (yaml_stored_lookup w c p rel id y es hfile hwf hne hfresh hc).2
+  have := yaml_replay w₁ c' p rel' id y _ h
+  exact ⟨this.1, this.2.1, this.2.2.2.1⟩
+
+/-- concrete run: document "a: 1\n---\nb: 2" under header `[T - 1]` on an empty file system,
+then again: first call adds, second passes; the file holds the escaped text -/
+example :
+    let w : World := { env := ⟨false, ""⟩ }
+    let y : Text := [97, 58, 32, 49, 10, 45, 45, 45, 10, 98, 58, 32, 50]
+    let id : Text := [91, 84, 32, 45, 32, 49, 93]
+    let r₁ := entryTail w {} [47, 102] [102] id (escape y) .escaped
+    let r₂ := entryTail r₁.1 {} [47, 102] [102] id (escape y) .escaped
+    r₁.2.events = [.log Generated.go_addedMsg] ∧ r₂.2.events = [] ∧ r₂.2.writes = [] ∧
+    fsRead r₁.1.fs [47, 102] = some ([10] ++ id ++ [10] ++
+      [97, 58, 32, 49, 10, 47, 45, 47, 45, 47, 45, 47, 10, 98, 58, 32, 50] ++ [10, 45, 45, 45, 10]) := by
+  decide +kernel
+
+/-! ## 3. an invalid document or a failing matcher writes nothing -/
+
+/-- instance of C17: `MatchYAML` with `validateYAML` or the matchers failing — one failure, no
+write, no removal, in every mode -/
+theorem yaml_invalid_writes_nothing (w : World) (c : Cfg) (caller tName : Text) (texec : Nat)
+    (msg : Text) :
+    let r := matchEntry w c caller tName texec .escaped (yamlPre (.error msg))
+    r.1.fs = w.fs ∧ r.2.writes = [] ∧ r.2.removed = [] ∧
+    (r.2.unsupported = none → r.2.events = [.error msg] ∧
+      r.1.events = { w.events with erred := w.events.erred + 1 }) := by
+  intro r
+  obtain ⟨a, b, d⟩ := C17.matcher_error_no_write w c caller tName texec .escaped msg
+  exact ⟨a, b, d, fun hs =>
+    let h := C17.matcher_error_one_failure w c caller tName texec .escaped msg hs
+    ⟨h.1, h.2.1⟩⟩
+
+/-! ## 4. the trailing newline through a YAML matcher -/
+
+/-- `MarshalFile` (match/internal/yaml/yaml.go:58-70): `strings.Join(docs [+ ""], "\n")`;
+`docs` are the `doc.String()` of goccy's AST (a parameter) -/
+def marshalFile (docs : List Text) (addNewLine : Bool) : Text :=
+  joinNL (docs ++ (if addNewLine then [[]] else []))
+
+theorem hasSuffix_nl (s : Text) : hasSuffix s [nl] = true ↔ s.getLast? = some nl := by
+  simp only [hasSuffix, List.isSuffixOf_iff_suffix]
+  constructor
+  · rintro ⟨t, rfl⟩; simp
+  · intro h
+    obtain ⟨t, rfl⟩ := List.getLast?_eq_some_iff.mp h
+    exact ⟨t, rfl⟩
+
+theorem joinNL_snoc (docs : List Text) (d : Text) (h : docs ≠ []) :
+    joinNL (docs ++ [d]) = joinNL docs ++ nl :: d := by
+  induction docs with
+  | nil => exact absurd rfl h
+  | cons x xs ih =>
+    cases xs with
+    | nil => simp [joinNL]
+    | cons y ys =>
+      have := ih (by simp)
+      simp only [List.cons_append] at this ⊢
+      simp only [joinNL, this, List.append_assoc, List.cons_append]
+
+theorem joinNL_getLast (init : List Text) (d : Text) (hd : d ≠ []) :
+    (joinNL (init ++ [d])).getLast? = d.getLast? := by
+  cases init with
+  | nil => simp [joinNL]
+  | cons x xs =>
+    rw [joinNL_snoc _ _ (by simp), List.getLast?_append]
+    obtain ⟨v, hv⟩ : ∃ v, d.getLast? = some v := ⟨_, List.getLast?_eq_some_getLast hd⟩
+    cases d with
+    | nil => exact absurd rfl hd
+    | cons a as => rw [List.getLast?_cons_cons, hv]; rfl
+
+/-- **yaml_matcher_newline**: for a non-empty document list whose last document is non-empty
+and does not itself end in a newline, the marshalled file ends with "\n" iff `addNewLine` -/
+theorem yaml_matcher_newline (init : List Text) (d : Text) (addNewLine : Bool)
+    (hd : d ≠ []) (hnl : d.getLast? ≠ some nl) :
+    hasSuffix (marshalFile (init ++ [d]) addNewLine) [nl] = addNewLine := by
+  cases addNewLine with
+  | true =>
+    simp only [marshalFile, ↓reduceIte]
+    rw [joinNL_snoc _ _ (by simp), hasSuffix_nl]
+    simp
+  | false =>
+    simp only [marshalFile, Bool.false_eq_true, ↓reduceIte, List.append_nil]
+    cases h : hasSuffix (joinNL (init ++ [d])) [nl] with
+    | false => rfl
+    | true =>
+      rw [hasSuffix_nl, joinNL_getLast _ _ hd] at h
+      exact absurd h hnl
+
+/-- with `addNewLine := bytes.HasSuffix(b, "\n")` (match/any.go:88, custom.go, type.go): the
+matcher's output ends with a newline exactly when its input did — the matcher neither adds nor
+drops the final newline of the document -/
+theorem yaml_matcher_newline_preserved (input : Text) (init : List Text) (d : Text)
+    (hd : d ≠ []) (hnl : d.getLast? ≠ some nl) :
+    hasSuffix (marshalFile (init ++ [d]) (hasSuffix input [nl])) [nl] = hasSuffix input [nl] :=
+  yaml_matcher_newline init d _ hd hnl
+
+/-- "a: 1" ++ "b: 2": joined with the separator newline only / plus the final one; and the
+corner the hypotheses exclude: an EMPTY document list with `addNewLine` yields "" (no newline) -/
+example :
+    marshalFile [[97, 58, 32, 49], [98, 58, 32, 50]] false = [97, 58, 32, 49, 10, 98, 58, 32, 50] ∧
+    marshalFile [[97, 58, 32, 49], [98, 58, 32, 50]] true = [97, 58, 32, 49, 10, 98, 58, 32, 50, 10] ∧
+    marshalFile [] true = [] ∧
+    marshalFile [[97], []] false = [97, 10] := by decide
+
 end GoSnaps.C18
